@@ -688,6 +688,11 @@ class PEval:
             if isinstance(a, Sym) and isinstance(shp, (list, tuple)) and len(shp) == 2:
                 return Sym(("split", a.term, tuple(x.term if isinstance(x, Sym) else x for x in shp)))
             raise Undecided("split_leading_dim")
+        if fn_text in ("torch.zeros",):
+            # a log-det accumulator started from zeros (its dtype / device are C19's business)
+            for a in e.args:
+                self._try(a, env)
+            return Sym(("zeros",))
         if fn_text in ("torch.as_tensor", "torch.tensor") and e.args:
             a = self.ev(e.args[0], env)
             if isinstance(a, Sym):
